@@ -40,6 +40,34 @@ Record msg := mkMsg {
   m_flags : list N              (* bytes *)
 }.
 
+(* Literals that the SHAPE of the model stands for rather than reads: the `height == 0` tests and
+   `height-1` decrements behind the structural recursion on [height], loop counters and cursors that
+   start at 0, `make(.., 0, ..)` lengths.  [lits_are l k zeros ones]: the function has [k] integer
+   literals, those at [zeros] are 0 and those at [ones] are 1.  The top-level model functions return
+   [Panic 8] when this fails, so that such a literal changed in the source breaks the equation lemmas
+   (BuildProofs.v, ExtractTop.v: `reflexivity`) at `make` time instead of going unnoticed. *)
+Definition lits_are (l : list Z) (k : nat) (zeros ones : list nat) : bool :=
+  Nat.eqb (length l) k && forallb (fun i => lit l i =? 0) zeros && forallb (fun i => lit l i =? 1) ones.
+
+Definition mb_struct_ok : bool :=
+  lits_are lits_MerkleBlock_calcTreeWidth 2 [] []
+  && lits_are lits_MerkleBlock_calcHash 9 [0%nat] [1; 5; 6]%nat           (* height == 0; height-1 (x3) *)
+  && lits_are lits_MerkleBlock_traverseAndBuild 11 [1%nat] [3; 7; 8]%nat  (* height == 0; height-1 (x3) *)
+  && lits_are lits_MerkleBlock_calcBlock 10 [4; 7]%nat []                 (* make(.., 0, n); i := uint32(0) *)
+  && lits_are lits_NewMerkleBlockWithTxnSet 4 [0; 1]%nat []               (* make(.., 0, numTx) (x2) *)
+  && lits_are lits_NewMerkleBlockWithFilter 4 [0; 1]%nat []
+  && lits_are lits_TxInSet 0 [] [].
+Definition bl_struct_ok : bool :=
+  lits_are lits_merkleBlock_calcTreeWidth 2 [] []
+  && lits_are lits_merkleBlock_calcHash 9 [0%nat] [1; 5; 6]%nat
+  && lits_are lits_merkleBlock_traverseAndBuild 11 [1%nat] [3; 7; 8]%nat
+  && lits_are lits_NewMerkleBlock 14 [0; 1; 8; 11]%nat [].                (* make (x3); i := uint32(0) *)
+Definition pb_struct_ok : bool :=
+  lits_are lits_PartialBlock_calcTreeWidth 2 [] []
+  && lits_are lits_PartialBlock_traverseAndExtract 12 [0; 2]%nat [4; 8; 9]%nat   (* height == 0 (x2); height-1 (x3) *)
+  && lits_are lits_NewMerkleBlockFromMsg 12 [1; 8; 9; 10; 11]%nat []     (* i := uint32(0); bitsUsed: 0; hashesUsed: 0; make(.., 0) (x2) *)
+  && lits_are lits_PartialBlock_ExtractMatches 8 [] [].
+
 Fixpoint nseq (start : N) (len : nat) : list N :=
   match len with O => [] | S k => start :: nseq (start + 1) k end.
 
@@ -120,6 +148,7 @@ Definition pack_bits (pad per per_idx : N) (bits : list N) : list N :=
   else pack_go (N.to_nat per_idx) (N.to_nat ((N.of_nat (length bits) + pad) / per)) bits.
 
 Definition mb_calc_block (header : list N) (numTx : N) (all : list hash) (mbits : list N) : res msg :=
+  if negb mb_struct_ok then Panic 8 else
   do height <- height_loop (mb_tree_width numTx) (lit lits_MerkleBlock_calcBlock 1) height_fuel
                  (lit lits_MerkleBlock_calcBlock 0);;
   (* if m.numTx > 0 { m.traverseAndBuild(height, 0) } *)
@@ -214,6 +243,7 @@ Definition bl_new (header : list N) (leaves : list hash) (matched_map : nat -> b
   let numTx := u32 (N.of_nat (length leaves)) in
   let sel := map matched_map (seq 0 (length leaves)) in
   let mbits := matched_bits (lit lits_NewMerkleBlock 2) (lit lits_NewMerkleBlock 3) sel in
+  if negb bl_struct_ok then Panic 8 else
   do height <- height_loop (bl_tree_width numTx) (lit lits_NewMerkleBlock 5) height_fuel (lit lits_NewMerkleBlock 4);;
   do st <- (if lit lits_NewMerkleBlock 6 <? numTx
             then bl_traverse_build numTx leaves mbits (N.to_nat height) (lit lits_NewMerkleBlock 7) ([], [])
@@ -300,6 +330,7 @@ Fixpoint traverse_extract (numTx : N) (bits : list N) (hashes : list hash)
    from the rest.  [maxtx] is the package variable MaxTxnCount. *)
 Definition extract_full (maxtx : N) (p : pblock) : res (hash * list (N * hash)) * xstate :=
   let numTx := pb_numTx p in
+  if negb pb_struct_ok then (Panic 8, x_init) else
   if numTx =? lit lits_PartialBlock_ExtractMatches 0 then (Err 1, x_init) else
   if maxtx <? numTx then (Err 2, x_init) else
   let total := u32 (N.of_nat (length (pb_hashes p))) in
